@@ -202,6 +202,77 @@ pub open spec fn streams_kept<S: Stream, K>(m0: Map<K, Pin<Box<S>>>, m1: Map<K, 
     &&& m1.dom().subset_of(m0.dom())
 }
 
+// ---- C05 whole-history corollary over the poll_next contract ----
+/// one poll_next call as its postcondition describes it, over "what each registered stream has yielded so far":
+/// `out` is the pair it returned (None for Pending / Ready(None))
+pub open spec fn qstep<K, T>(a: Map<K, Seq<T>>, b: Map<K, Seq<T>>, out: Option<(K, T)>) -> bool {
+    &&& b.dom().subset_of(a.dom())
+    &&& out matches Some(kv) ==> a.contains_key(kv.0) && b.contains_key(kv.0) && b[kv.0] == a[kv.0].push(kv.1)
+    &&& forall|q: K| #[trigger] b.contains_key(q) && !(out is Some && out->Some_0.0 == q) ==> b[q] == a[q]
+}
+/// the items delivered for peer `q` by a sequence of polls, in delivery order
+pub open spec fn delivered<K, T>(outs: Seq<Option<(K, T)>>, q: K) -> Seq<T>
+    decreases outs.len()
+{
+    if outs.len() == 0 { Seq::empty() } else {
+        let d = delivered(outs.drop_last(), q);
+        match outs.last() { Some(kv) => if kv.0 == q { d.push(kv.1) } else { d }, None => d }
+    }
+}
+/// a history of polls: states[i] --outs[i]--> states[i+1]
+pub open spec fn qtrace<K, T>(states: Seq<Map<K, Seq<T>>>, outs: Seq<Option<(K, T)>>) -> bool {
+    &&& states.len() == outs.len() + 1
+    &&& forall|i: int| 0 <= i < outs.len() ==> qstep(#[trigger] states[i], states[i + 1], outs[i])
+}
+/// Exactly once, in order, per peer: for every stream still registered after any number of polls, what it has
+/// yielded is what it had yielded before the history plus exactly the items delivered for its key, in delivery
+/// order - no item read from a stream is lost, none is delivered twice or under another key, none out of order.
+pub proof fn lemma_trace_exactly_once_in_order<K, T>(states: Seq<Map<K, Seq<T>>>, outs: Seq<Option<(K, T)>>, q: K)
+    requires qtrace(states, outs), states.last().contains_key(q),
+    ensures
+        states[0].contains_key(q),
+        states.last()[q] == states[0][q] + delivered(outs, q),
+    decreases outs.len()
+{
+    if outs.len() == 0 {
+        assert(states.last() == states[0]);
+        assert(delivered(outs, q) =~= Seq::<T>::empty());
+        assert(states[0][q] + Seq::<T>::empty() =~= states[0][q]);
+    } else {
+        let n = outs.len() as int;
+        let st = states.drop_last(); let ou = outs.drop_last();
+        assert(qstep(states[n - 1], states[n], outs[n - 1]));
+        assert(states.last() == states[n]);
+        assert(states[n - 1].contains_key(q));
+        assert(st.last() == states[n - 1]);
+        assert forall|i: int| 0 <= i < ou.len() implies qstep(#[trigger] st[i], st[i + 1], ou[i]) by {
+            assert(st[i] == states[i] && st[i + 1] == states[i + 1] && ou[i] == outs[i]);
+        }
+        lemma_trace_exactly_once_in_order(st, ou, q);
+        assert(st[0] == states[0]);
+        let d = delivered(ou, q);
+        match outs.last() {
+            Some(kv) => {
+                if kv.0 == q {
+                    assert(states[n][q] == states[n - 1][q].push(kv.1));
+                    assert((states[0][q] + d).push(kv.1) =~= states[0][q] + d.push(kv.1));
+                } else {
+                    assert(states[n][q] == states[n - 1][q]);
+                }
+            }
+            None => { assert(states[n][q] == states[n - 1][q]); }
+        }
+    }
+}
+/// what every registered stream has yielded so far (the queue state as far as C05 is concerned)
+pub open spec fn yview<S: Stream, K>(m: Map<K, Pin<Box<S>>>) -> Map<K, Seq<S::Item>> {
+    Map::new(m.dom(), |k: K| stream_of(m[k]).yielded())
+}
+/// the (key, item) pair a poll returned, if any
+pub open spec fn out_of<K, T>(r: Poll<Option<(K, T)>>) -> Option<(K, T)> {
+    match r { Poll::Ready(Some(kv)) => Some(kv), _ => None }
+}
+
 impl<S, T, K: Clone> FairQueue<S, K> where S: Stream<Item = T> {
     pub closed spec fn q(&self) -> QueueInner<S, K> { self.inner.inner }
     pub closed spec fn blocking(&self) -> bool { self.block_on_no_clients }
@@ -242,6 +313,8 @@ impl<S, T, K: Clone> FairQueue<S, K> where S: Stream<Item = T> {
 //@|            // ready (Pending) or that yielded an item is always put back
 //@|            forall|q: K| old(self).q().sv().contains_key(q) && !final(self).q().sv().contains_key(q)
 //@|                ==> stream_of(#[trigger] old(self).q().sv()[q]).exhausted(),
+//@|            // C05: the same facts as ONE step of the history relation the trace lemma is proved over
+//@|            qstep(yview(old(self).q().sv()), yview(final(self).q().sv()), out_of(r)),
 //@ loop 1
 //@|            invariant
 //@|                fair_queue.blocking() == old(self).blocking(),
